@@ -19,7 +19,6 @@
 package commonmark
 
 import (
-	"bytes"
 	"fmt"
 	"html"
 	"io"
@@ -443,10 +442,7 @@ func (r *renderState) filterRaw(rawHTML []byte) {
 					i += len("<!")
 				default:
 					tagNameStart := i + 1
-					tagEnd := len(rawHTML)
-					if j := bytes.IndexByte(rawHTML[tagNameStart:], '>'); j >= 0 {
-						tagEnd = tagNameStart + j + len(">")
-					}
+					tagEnd := tagNameStart + htmlTagEnd(rawHTML[tagNameStart:])
 					tagNameEnd := tagNameStart + htmlTagNameEnd(rawHTML[tagNameStart:tagEnd])
 					tagName := maybeLower(rawHTML[tagNameStart:tagNameEnd], &r.lowerBuf)
 					escaped := r.FilterTag(tagName)
@@ -498,6 +494,98 @@ func (r *renderState) filterRaw(rawHTML []byte) {
 	}
 
 	r.dst = append(r.dst, rawHTML[copyStart:]...)
+}
+
+// htmlTagEnd returns the index just past the '>' that ends a tag for an HTML parser,
+// given the bytes following the tag's '<',
+// or len(b) if the tag is not closed.
+// Unlike the first '>', this skips over quoted attribute values.
+func htmlTagEnd(b []byte) int {
+	const (
+		tagNameState = iota
+		beforeAttrNameState
+		attrNameState
+		afterAttrNameState
+		beforeAttrValueState
+		doubleQuotedState
+		singleQuotedState
+		unquotedState
+	)
+	isSpace := func(c byte) bool { return c == ' ' || c == '\t' || c == '\n' || c == '\f' }
+	state := tagNameState
+	for i, c := range b {
+		switch state {
+		case tagNameState:
+			switch {
+			case c == '>':
+				return i + 1
+			case isSpace(c) || c == '/':
+				state = beforeAttrNameState
+			}
+		case beforeAttrNameState:
+			switch {
+			case c == '>':
+				return i + 1
+			case isSpace(c) || c == '/':
+				// Stay.
+			default:
+				state = attrNameState
+			}
+		case attrNameState:
+			switch {
+			case c == '>':
+				return i + 1
+			case isSpace(c):
+				state = afterAttrNameState
+			case c == '/':
+				state = beforeAttrNameState
+			case c == '=':
+				state = beforeAttrValueState
+			}
+		case afterAttrNameState:
+			switch {
+			case c == '>':
+				return i + 1
+			case isSpace(c):
+				// Stay.
+			case c == '/':
+				state = beforeAttrNameState
+			case c == '=':
+				state = beforeAttrValueState
+			default:
+				state = attrNameState
+			}
+		case beforeAttrValueState:
+			switch {
+			case c == '>':
+				return i + 1
+			case isSpace(c):
+				// Stay.
+			case c == '"':
+				state = doubleQuotedState
+			case c == '\'':
+				state = singleQuotedState
+			default:
+				state = unquotedState
+			}
+		case doubleQuotedState:
+			if c == '"' {
+				state = beforeAttrNameState
+			}
+		case singleQuotedState:
+			if c == '\'' {
+				state = beforeAttrNameState
+			}
+		case unquotedState:
+			switch {
+			case c == '>':
+				return i + 1
+			case isSpace(c):
+				state = beforeAttrNameState
+			}
+		}
+	}
+	return len(b)
 }
 
 func appendAltText(dst []byte, source []byte, parent *Inline) []byte {
